@@ -100,7 +100,12 @@ def main(argv):
     old = {}
     if os.path.exists(out) and (only or "--checks" in argv):
         old = json.load(open(out))
-    old.update(table)
+    for name, entry in table.items():
+        if name in old and "--checks" in argv and "results" in old[name] and "apply" not in entry["results"]:
+            merged = dict(old[name]["results"])
+            merged.update(entry["results"])
+            entry = {"kind": entry["kind"], "results": merged}
+        old[name] = entry
     json.dump(old, open(out, "w"), indent=1, sort_keys=True)
 
 
